@@ -402,6 +402,12 @@ Definition remove_tabnl (s : str) : str * bool :=
   let t := filter (fun b => negb (isTabOrNewline b)) s in
   (t, negb (len t =? len s)%Z).
 
+(* the scalar-value reading of the input that the removal works on when it removes something *)
+Definition remove_tabnl_sv (acceptInvalid : bool) (s : str) : str * bool :=
+  let '(i, changed) := remove_tabnl s in
+  if changed && negb acceptInvalid && negb (valid_utf8 s) then (fst (remove_tabnl (to_valid s)), true)
+  else (i, changed).
+
 Definition fuel_of (n : nat) : nat := 24 * (n + 3).
 
 Section Basic.
@@ -414,7 +420,9 @@ Section Basic.
   (* BasicParser(urlOrRef, baseUrl, url, stateOverride) *)
   Definition BasicParser (urlOrRef : str) (baseUrl : option url) (u0 : option url) (override : option state) : result :=
     let start (u : url) : result :=
-      let '(i, changed) := remove_tabnl (u_input u) in
+      (* tab/newline removal; when something is removed, invalid UTF-8 is first read as U+FFFD (unless the
+         parser accepts invalid code points), so that a removal cannot join the halves of a broken sequence *)
+      let '(i, changed) := remove_tabnl_sv (c_acceptInvalid c) (u_input u) in
       let k (u : url) : result :=
         let inp := decode (u_input u) in
         let st := match override with Some s => s | None => SchemeStart end in
